@@ -216,7 +216,12 @@ def stepCsr (d : DState) (req : List String) (impl : String) : DState × String 
   | ["add_node", w] =>
     let (g', i) := g.addNode (int w)
     match CsrM.addNode s (int w) with
-    | some (s', mi) => ({ d with csr := s', sg := g' }, verdict (expect (toString i) impl) (toString mi) impl)
+    | some (s', mi) =>
+      -- open finding D31: beyond the index type's capacity the returned index wraps around
+      if s.modulus != 0 && i ≥ s.modulus && impl == toString (i % s.modulus) && mi == i % s.modulus then
+        ({ d with csr := s', sg := g' }, s!"KNOWN D31 Csr::add_node beyond the index capacity returned the wrapped index {impl} for node {i}")
+      else
+      ({ d with csr := s', sg := g' }, verdict (expect (toString i) impl) (toString mi) impl)
     | none => ({ d with sg := g' }, verdict (expect (toString i) impl) "panic" impl)
   | ["add_edge", a, b, w] =>
     let (g', r) := g.addEdge (nat a) (nat b) (int w)
@@ -344,6 +349,9 @@ def stepList (d : DState) (req : List String) (impl : String) : DState × String
   | ["add_node"] | ["add_node_cap", _] | ["build_add_node"] =>
     let (s', mi) := AdjM.addNode s
     let (g', i) := g.addNode
+    if s.modulus != 0 && i ≥ s.modulus && impl == toString (i % s.modulus) && mi == i % s.modulus then
+      ({ d with adj := s', ml := g' }, s!"KNOWN D31 adj::List::add_node beyond the index capacity returned the wrapped index {impl} for node {i}")
+    else
     ({ d with adj := s', ml := g' }, verdict (expect (toString i) impl) (toString mi) impl)
   | ["add_node_from", es] =>
     match parseNI es with
